@@ -11,7 +11,7 @@ from proto import ET, dec_q, dec_tens, proj_close_nn, run_driver
 from props.c16 import AFFINE3, polygons, vt
 
 ID = "C17"
-LEAN_FILES = ["Geo/Props/C17.lean"]
+LEAN_FILES = ["Geo/Props/C17.lean", "Geo/Props/C17b.lean"]
 RULE = ("simple lattice polygons (3-5 vertices, convex and not): area = |shoelace|/2 and centroid = area centroid (exact S-layer), for every "
         "rotation / reversal of the vertex list, translated far from the origin, embedded in 3-space under rational affine maps (area = "
         "|vector area|/2) and after Pythagorean rotations + translations applied to the object (cached plane must follow); Simplex.volume "
@@ -34,6 +34,14 @@ def polygon_stream(ctx, n):
         reqs.append("spec.shoelace2 " + " ".join(vt(v) for v in vs))
         reqs.append("spec.centroidnum " + " ".join(vt(v) for v in vs))
     answers = run_driver(reqs)
+    # the fan sum of the source (Geo.polyFan2 over the regenerated Gen.area_rows / Gen.area_range; T17_area_fan_is_shoelace)
+    # evaluated by the compiled model on the same vertex lists: must equal the specification's shoelace sum
+    manswers = run_driver(["m.polyfan2 " + " ".join(vt(v) for v in vs) for vs in polys])
+    for k, vs in enumerate(polys):
+        if manswers[k] != answers[2 * k]:
+            ctx.disagree("C17:model-vs-spec:area-fan", f"polygon {vs}", answers[2 * k], manswers[k], replay=[f"polygon {vs}"])
+            break
+    ctx.count("model-vs-spec:area-fan", len(polys))
     for k, vs in enumerate(polys):
         s2 = dec_q(answers[2 * k].split(" ")[1])[0]
         cn = [e[0] for e in dec_tens(answers[2 * k + 1].split(" ")[1]).entries]
